@@ -328,7 +328,188 @@ func likeShards(c *ev.Check, shards *[]pool.Shard) {
 	for i := 0; i < n; i += step {
 		*shards = append(*shards, pool.Shard{Kind: "like", Arg: likeArg{M: m, From: i, To: i + step, Seed: c.Seed}})
 	}
+	nn := len(allNominal(m))
+	nstep := (nn + 31) / 32
+	for i := 0; i < nn; i += nstep {
+		*shards = append(*shards, pool.Shard{Kind: "nominal", Arg: likeArg{M: m, From: i, To: i + nstep, Seed: c.Seed}})
+	}
+	c.Set("like_nominal_pairs", nn)
 	c.Set("like_methods", m)
 	c.Set("like_object_tables", n)
 	c.Set("like_targets", len(tuples(m, []int{-1, 0, 1, 2}))*2)
+}
+
+// ---- nominal pairs: the object's class extends / implements the target and redeclares methods ----
+
+// nominalCase: target T declares Target[m] parameters for method m (-1 absent); class Obj
+// `extends T` (class target) or `implements T` (interface target) and redeclares method m with
+// Obj[m] parameters (-1: not redeclared - inherited from a class target).
+type nominalCase struct {
+	Target []int `json:"target"`
+	Obj    []int `json:"obj"`
+	TIface bool  `json:"target_is_interface"`
+}
+
+// paramsOpt: n parameters, those beyond `required` optional (what PHP demands of a wider override)
+func paramsOpt(n, required int) string {
+	var p []string
+	for i := 0; i < n; i++ {
+		if i >= required && required >= 0 {
+			p = append(p, fmt.Sprintf("$p%d = null", i+1))
+		} else {
+			p = append(p, fmt.Sprintf("$p%d", i+1))
+		}
+	}
+	return strings.Join(p, ", ")
+}
+
+func nominalScript(c nominalCase, pfx string) string {
+	var sb strings.Builder
+	T, O := pfx+"NT", pfx+"NO"
+	if c.TIface {
+		fmt.Fprintf(&sb, "interface %s {%s }\n", T, ifaceBody(c.Target))
+	} else {
+		fmt.Fprintf(&sb, "class %s {%s }\n", T, classBody(c.Target, "t"))
+	}
+	var body strings.Builder
+	for m, a := range c.Obj {
+		if a >= 0 {
+			fmt.Fprintf(&body, " public function %s(%s) { return \"obj\"; }", likeMethods[m], paramsOpt(a, c.Target[m]))
+		}
+	}
+	rel := "extends"
+	if c.TIface {
+		rel = "implements"
+	}
+	fmt.Fprintf(&sb, "class %s %s %s {%s }\n", O, rel, T, body.String())
+	fmt.Fprintf(&sb, "echo \"@@N@@\"; try { $o = new %s(); echo ($o like %s) ? \"y\" : \"n\"; } catch (Throwable $e) { echo \"E|\", get_class($e), \"|\", $e->getMessage(); }\n", O, T)
+	sb.WriteString("echo \"@@END@@\";\n")
+	return sb.String()
+}
+
+func nominalWant(c nominalCase) bool {
+	for m, t := range c.Target {
+		if t < 0 {
+			continue
+		}
+		p := c.Obj[m]
+		if p < 0 {
+			p = t // inherited unchanged from the class target
+		}
+		if p != t {
+			return false
+		}
+	}
+	return true
+}
+
+// evalNominal: got is y / n / error (origami refused the redeclaration or the class: accepted as
+// "not like") / crash / missing.
+func evalNominal(st *stats, c nominalCase, pfx string) (bool, string, string) {
+	script := nominalScript(c, pfx)
+	res := st.run(script)
+	out, _ := parseOut(res.Out)
+	v, ok := out["N"]
+	got := norm(v, ok)
+	if res.Kind == "panic" {
+		got = "crash"
+	} else if !ok && (res.Kind == "throw" || res.Kind == "parse") {
+		got = "error"
+	}
+	return nominalWant(c), got, script
+}
+
+func nominalVerdict(want bool, got string) string {
+	if got == "error" {
+		// the override / class was rejected: nothing to compare; only a false "y" is impossible then
+		return ""
+	}
+	return likeVerdict(want, got)
+}
+
+func allNominal(m int) []nominalCase {
+	var out []nominalCase
+	for _, isI := range []bool{false, true} {
+		for _, t := range tuples(m, []int{-1, 0, 1, 2}) {
+			for _, o := range tuples(m, []int{-1, 0, 1, 2}) {
+				ok := true
+				for k := range t {
+					if isI && t[k] >= 0 && o[k] < 0 {
+						ok = false // an implementer must define the interface's methods
+					}
+				}
+				if ok {
+					out = append(out, nominalCase{append([]int{}, t...), append([]int{}, o...), isI})
+				}
+			}
+		}
+	}
+	return out
+}
+
+func nominalWorker(w *pool.W, arg json.RawMessage) {
+	var a likeArg
+	json.Unmarshal(arg, &a)
+	st := &stats{outcomes: map[string]int64{}}
+	cases := allNominal(a.M)
+	pfx := namesOf(a.Seed).cpfx
+	seen := map[string]bool{}
+	for i := a.From; i < a.To && i < len(cases); i++ {
+		if !w.Item(fmt.Sprintf("nominal/%d/%d", a.M, i)) {
+			continue
+		}
+		c := cases[i]
+		st.cells++
+		want, got, _ := evalNominal(st, c, pfx)
+		st.outcomes[fmt.Sprintf("like-nominal/%v/%s", want, got)]++
+		if nominalVerdict(want, got) == "" {
+			continue
+		}
+		// reduce: drop methods (from both tables) while the same answer persists; interface -> class
+		target := fmt.Sprint(want, got)
+		same := func(d nominalCase) bool {
+			w2, g2, _ := evalNominal(st, d, "L")
+			return fmt.Sprint(w2, g2) == target && nominalVerdict(w2, g2) != ""
+		}
+		for changed := true; changed; {
+			changed = false
+			for m := range c.Target {
+				if c.Target[m] < 0 && c.Obj[m] < 0 {
+					continue
+				}
+				d := nominalCase{append([]int{}, c.Target...), append([]int{}, c.Obj...), c.TIface}
+				d.Target[m], d.Obj[m] = -1, -1
+				if same(d) {
+					c, changed = d, true
+				}
+			}
+		}
+		var parts []string
+		for m := range c.Target {
+			if c.Target[m] >= 0 || c.Obj[m] >= 0 {
+				parts = append(parts, fmt.Sprintf("%d->%d", c.Target[m], c.Obj[m]))
+			}
+		}
+		rel := "extends target-class"
+		if c.TIface {
+			rel = "implements target-interface"
+		}
+		_, rg, script := evalNominal(st, c, "L")
+		shape := "same parameter counts"
+		for m := range c.Target {
+			if c.Target[m] >= 0 && c.Obj[m] >= 0 && c.Target[m] != c.Obj[m] {
+				shape = "a method redeclared with a different parameter count"
+			}
+		}
+		_ = parts
+		key := fmt.Sprintf("like: obj %s, %s want=%s got=%s", rel, shape, map[bool]string{true: "y", false: "n"}[nominalWant(c)], rg)
+		if seen[key] {
+			continue
+		}
+		seen[key] = true
+		cc := c
+		w.Emit(rec{Kind: "fail", Key: key, Clause: "like", Size: len(script), Case: caseDesc{Family: "like-nominal", Nominal: &cc, Script: script},
+			Detail: fmt.Sprintf("class NO %s NT; NT declares %s, NO redeclares %s (-1 = not redeclared); `new NO like NT`\nreference (same parameter count for every method NT declares): %v; origami: %s", rel, fmtSig(c.Target), fmtSig(c.Obj), nominalWant(c), rg)})
+	}
+	w.Emit(rec{Kind: "count", N: st.cells, Runs: st.runs, Outcomes: st.outcomes})
 }
